@@ -295,6 +295,15 @@ def run(tier, seed, out, drv, facts):
                     # overlapping lifetimes of different hooks on nested names
                     directed.append([{"op": "install", "names": ["pkg"], "checker": chk, "id": 0}, {"op": "install", "names": ["pkg.sub"], "checker": "spy_b.check", "id": 1},
                                      {"op": "uninstall", "id": first_out}, {"op": "import", "m": "pkg.sub.foo"}, {"op": "import", "m": "pkg.foo"}])
+            # two hooks over the SAME names with different typecheckers, taken down oldest first (not last-in-first-out) and
+            # newest first: the one that is left keeps instrumenting with ITS checker, and nothing instruments after both are gone
+            for ca, cb in (("spy_a.check", "spy_b.check"), (None, "spy_b.check"), ("spy_a.check", None)):
+                for first_out in (0, 1):
+                    for names in (["foo"], ["foo", "pkg"]):
+                        directed.append([{"op": "install", "names": list(names), "checker": ca, "id": 0}, {"op": "install", "names": list(names), "checker": cb, "id": 1},
+                                         {"op": "import", "m": "foo"}, {"op": "uninstall", "id": first_out}, {"op": "import", "m": "foo.bar"},
+                                         {"op": "import", "m": "foo.baz"},
+                                         {"op": "uninstall", "id": 1 - first_out}, {"op": "import", "m": "foo.baz.qux"}])
             for i in range(n + len(directed)):
                 prefix = f"h{seed}_{i}_"
                 write_forest(root, prefix)
